@@ -1510,6 +1510,7 @@ impl Linearizer {
             Comparison::Equal => ValueRequirement::Exact,
         };
         let value = exp.linearize(self, requirement)?;
+        ensure_finite(&value, &exp)?;
         self.linear_constraints
             .push(MidLinearConstraint::new_from_linearized_context(
                 value, comparison, name,
@@ -1568,6 +1569,7 @@ impl Linearizer {
             OptimizationType::Satisfy => ValueRequirement::Exact,
         };
         let linearized_objective = objective_exp.linearize(&mut context, objective_requirement)?;
+        ensure_finite(&linearized_objective, &objective_exp)?;
         while let Some(constraint) = context.pop_constraint() {
             let is_logic_assertion = constraint.is_logic_assertion();
             let (lhs, op, rhs, name) = constraint.into_parts();
@@ -1675,6 +1677,21 @@ fn normalize_constraints(constraints: Vec<Constraint>) -> Vec<Constraint> {
         .collect()
 }
 
+/// A linear model only carries finite numbers: infinite constants in the source
+/// (`Infinity * y`, `x + Infinity - Infinity`) would otherwise end up as `inf` or
+/// `NaN` coefficients, right-hand sides or objective offset.
+fn ensure_finite(value: &LinearizationContext, source: &Exp) -> Result<(), LinearizationError> {
+    let is_finite =
+        value.current_rhs.is_finite() && value.current_vars.values().all(|c| c.is_finite());
+    if is_finite {
+        Ok(())
+    } else {
+        Err(LinearizationError::NonFiniteConstant(Box::new(
+            source.clone(),
+        )))
+    }
+}
+
 fn extract_coeffs(exp: &IndexMap<String, f64>, vars: &IndexMap<String, usize>) -> Vec<f64> {
     let mut vec = vec![0.0; vars.len()];
     for (name, val) in exp.iter() {
@@ -1695,6 +1712,7 @@ pub enum LinearizationError {
     VarAlreadyDeclared(String),
     UnimplementedExpression(Box<Exp>),
     NonBinaryLogicOperand(Box<Exp>),
+    NonFiniteConstant(Box<Exp>),
     MissingFiniteBounds {
         expression: Box<Exp>,
         requirement: &'static str,
@@ -1728,6 +1746,13 @@ impl Display for LinearizationError {
             }
             LinearizationError::NonBinaryLogicOperand(exp) => {
                 write!(f, "Logic operands must be boolean values, got: \"{}\"", exp)
+            }
+            LinearizationError::NonFiniteConstant(exp) => {
+                write!(
+                    f,
+                    "Infinite or undefined constant in expression: \"{}\"",
+                    exp
+                )
             }
             LinearizationError::MissingFiniteBounds {
                 expression,
